@@ -20,7 +20,7 @@ BSeq == <<"A", "B">>
 
 Matches(e, x) ==
    LET o == e.obs IN
-   /\ o.i = x.i /\ o.step = x.step /\ o.pc = x.pc /\ o.cm = x.cm
+   /\ o.i = x.i /\ o.step = x.step /\ o.pc = x.pc /\ o.cm = x.cm /\ o.cd = x.cd
    /\ \A k \in K3 : \A n \in 1..2 : BSeq[n] \in Blocks => o.cnt[k][n] = x.wr[x.i].cnt[k][BSeq[n]]
    /\ { <<y.k, y.i, y.b>> : y \in { z \in SetOf(e.sent) : z.k \in K3 } }
         = { <<x.out[n].k, x.out[n].i, x.out[n].b>> : n \in { m \in DOMAIN x.out : x.out[m].t = "V" } }
@@ -28,7 +28,7 @@ Matches(e, x) ==
         = { <<x.out[n].i, x.out[n].b, x.out[n].pre>> : n \in { m \in DOMAIN x.out : x.out[m].t = "C" } }
 
 IsEvent(name) == l <= Len(TraceLog) /\ TraceLog[l].ev = name /\ l' = l + 1
-Frame == UNCHANGED <<dl, dln, ownv, flags, nmsg, hist>>
+Frame == UNCHANGED <<dl, dln, df, ownv, flags, nmsg, nlost, hist>>
 Take(e, x) == Matches(e, x) /\ v' = [x EXCEPT !.out = <<>>]
 
 FreshV == [i |-> 1, step |-> 0, pc |-> FALSE, cd |-> FALSE, cm |-> FALSE, over |-> {}, wr |-> [ii \in 1..MaxI |-> EmptyWrapper],
@@ -47,7 +47,7 @@ TNextIdx == /\ IsEvent("NextIdx")
                   /\ [n \in 1..Len(OfKind(q, "Prevote") \o OfKind(q, "Precommit")) |-> (OfKind(q, "Prevote") \o OfKind(q, "Precommit"))[n]]
                        = (IF "replayed" \in DOMAIN e THEN [n \in 1..Len(e.replayed) |-> [k |-> e.replayed[n].k, s |-> e.replayed[n].s, b |-> e.replayed[n].b]] ELSE <<>>)
             /\ Frame
-TRecv == /\ IsEvent("Recv") /\ LET e == TraceLog[l] IN Take(e, Recv(v, e.s, e.k, e.b, e.i, e.cred))
+TRecv == /\ IsEvent("Recv") /\ LET e == TraceLog[l] IN Take(e, RecvAs(v, e.s, e.k, e.b, e.i, e.cred, IF "as" \in DOMAIN e THEN e.as ELSE "judged"))
          /\ Frame
 
 TInit == Init /\ l = 1 /\ TLCSet(1, 0)
